@@ -101,6 +101,7 @@ let split_digest (full : n list) : n list * n option =
 let parse_express (f : string list) : ev option =
   match f with
   | "express" :: nm :: cbp :: dig :: life :: _ -> Some (EExpress (name_of_string nm, cbp = "1", opt_n dig, opt_n life))
+  | "expressfail" :: nm :: cbp :: dig :: life :: _ -> Some (EExpressFail (name_of_string nm, cbp = "1", opt_n dig, opt_n life))
   | ["data"; nm; dd] -> Some (EData (name_of_string nm, n_of_int (int_of_string dd)))
   | ["nack"; nm; r] -> let (nm', dig) = split_digest (name_of_string nm) in Some (ENack (nm', dig, n_of_int (int_of_string r)))
   | _ -> None
@@ -244,7 +245,7 @@ let () =
               end in
         let outcomes (st : state) : (state * obs list) list =
           match f with
-          | "express" :: _ -> (match parse_express f with Some e -> [with_nops (step1 (st, []) e)] | None -> [(st, [])])
+          | "express" :: _ | "expressfail" :: _ -> (match parse_express f with Some e -> [with_nops (step1 (st, []) e)] | None -> [(st, [])])
           | ["data"; nm; dd] -> [with_nops (step1 (st, []) (EData (name_of_string nm, n_of_int (int_of_string dd))))]
           | ["nack"; nm; r] ->
               (* the harness writes the full name; a digest component has key >= 100 *)
@@ -353,6 +354,12 @@ let () =
                   let mine = take_out_int () in
                   let errs = parse (List.filter (fun x -> x = "ret err") !outs) in
                   feed idx o.text (SExpress (nm, cbp, dig, life)) (if mine <> [] then mine else errs)
+              | _ -> ());
+             List.iter feed_nop o.nops
+         | "expressfail" :: _ ->
+             (match parse_express f with
+              | Some (EExpressFail (nm, cbp, dig, life)) ->
+                  feed idx o.text (SExpressFail (nm, cbp, dig, life)) (parse (List.filter (fun x -> x = "ret err") !outs))
               | _ -> ());
              List.iter feed_nop o.nops
          | ["data"; nm; dd] ->
